@@ -54,6 +54,66 @@ CHECKS["C04"] = {
     "technique": "TLA+ protocol spec with fault actions model-checked by TLC; trace validation of real executions with a fault injected at every scheduling point",
 }
 
+def _e(cat, text, ref, note, tech):
+    return {"category": cat, "text": text, "design_ref": ref, "note": note, "technique": tech}
+
+
+CHECKS["C03"] = _e("model_checking",
+    "MC_FSDurable.tla models every operation type (create, append, multi-file transaction, delete, expire, delete-snapshot, collect) as its syscall-level step sequence with a Crash action enabled at every step; TLC proves AtomicPublish and CrashPreOrPost0 and exports the crash classes. On the real library a child process performs the operation and dies (os._exit) before its k-th intercepted os-level call, for every class (quick) / every k (thorough), on tables with 0..2 prior snapshots; each surviving directory is (a) projected by the independent reader and required to be exactly PRE or exactly POST (POST only if the pointer moved), (b) reopened in a fresh interpreter (uuid, snapshots, rows, follow-up append, two collections leave nothing of the dead operation and keep every retained snapshot), (c) validated as a trace (step log + crash + observed directory) by TLC against the same spec.",
+    "DESIGN.md 6/C03; notes/C03.md",
+    "Trusted: TLC, the call interception in the child (wraps os/tempfile/fcntl entry points), the independent reader. Process crash only (power loss is C16). A crash between publishing v0 and writing the pointer during create is counted as POST via the effective pointer (documented).",
+    "TLA+ filesystem/protocol spec with Crash actions model-checked by TLC; real crashes at every intercepted call replayed and their step logs validated as traces")
+CHECKS["C05"] = _e("model_checking",
+    "Three spec-backed parts. NormalizePath.tla: TLC enumerates every table-location string up to length 3/4 over {/ . d a t m e x} plus named spellings and proves that listed and referenced forms of every internal file get the same comparison key and distinct files stay distinct; the exported table is compared with the real key functions on the whole domain. History.tla: all sequential histories up to a bound over appends, deletes, expiries, snapshot deletions, open/rolled-back/committed transactions, failed commits, collect(grace in {0, default, large}) and clock ticks, with GCKeepsReachable / GCRemovesOldOrphans / RetainedImmutable checked by TLC; every history is replayed on the real library under a virtual clock for each table-location spelling class (absolute, trailing slash, relative, ./x, d, data, m, metadata, data2, symlinked root) with the independent reader comparing deletions against reachable and in-flight sets after every step. DataShard.tla collector: real collection runs with an open transaction paused at many points validated as traces (only deletes the model's rule allows; every eligible orphan must go).",
+    "DESIGN.md 6/C05; notes/C17.md part 2; notes/C15.md",
+    "Trusted: TLC, virtual clock patches, independent reader. Spellings that need a table at the filesystem root (/data, /d) are covered at function level only. S3 prefixes share the key functions (listing semantics: C20).",
+    "TLA+ specs (NormalizePath, History, DataShard collector) model-checked by TLC; TLC-generated histories replayed per location spelling; collector traces validated")
+CHECKS["C06"] = _e("model_checking",
+    "DataShard.tla with a collector actor (one action per storage call of collect()) racing committers; file ages are explicit (data files written before the run may be older than any grace period; files written during the run are younger - the proviso). TLC explores all interleavings with an appending, deleting, expiring committer (thorough: two committers with retry, committer faults) checking ReachablePresent in every state, OnlyOrphansDeleted, InflightPresent; the pre-repair read order (metadata before markers) must fail. Binding: the same races on the real library (back-dated data files), every single-pause schedule in both directions plus seeded double-pause/random ones, each trace validated by TLC against the same actions.",
+    "DESIGN.md 6/C06",
+    "Trusted: as C01. One collector at a time; proviso grace > run duration (real runs: grace 1 s virtual, data files back-dated 10 s).",
+    "TLA+ protocol spec with collector model-checked by TLC; trace validation of real scheduled collector/committer races")
+CHECKS["C07"] = _e("model_checking",
+    "DataShard.tla collector failure handling (reachable list/manifest missing, unparseable or failing; metadata unreadable; marker directory unlistable; marker unreadable / unstat-able / undeletable; listing failure; listing returning a path outside the table; candidate stat/delete failure). TLC explores one (thorough: two) fault at every collector step racing an in-flight transaction, checking AbortDeletesNothing, InflightPresent, ReachablePresent, OnlyOrphansDeleted; the pre-repair handling must fail. Binding: on the real library every storage call of a collection run is failed once and every listing made to return an escaping path once, over tables with three retained snapshots, old orphans and an in-flight transaction paused at several points, plus tables whose reachable list/manifest is missing or garbage; each trace validated by TLC.",
+    "DESIGN.md 6/C07",
+    "Trusted: as C01. Transient and permanent storage errors are both an exception raised by the storage call.",
+    "TLA+ protocol spec with collector fault actions model-checked by TLC; trace validation of real collection runs with a fault at every storage call")
+CHECKS["C09"] = _e("model_checking",
+    "History.tla: all sequential histories up to length 4 (quick) / 6 (thorough) over appends, deletes (manifest rewrites), expiries, snapshot deletions, collections and failed commits under a history-controlled clock incl. equal timestamps; TLC checks RetainedImmutable, ByTimestampMeansMostRecent, DeleteCurrentRepoints. Every TLC-exported history is replayed on the real library under a virtual clock; after every step the independent reader re-reads every retained snapshot (list, manifests, parquet rows, checksums) and compares with the content recorded at its commit, and lookups by id / by timestamp (at, between and around every commit time) are compared with the reference answer.",
+    "DESIGN.md 6/C09; notes/C09.md",
+    "Trusted: TLC, virtual clock patches, independent reader. Clock regressions are outside the property's quantifier.",
+    "TLA+ history spec model-checked by TLC; TLC-generated histories replayed with per-step re-read of every retained snapshot")
+CHECKS["C11"] = _e("model_checking",
+    "SchemaAccept.tla: state machine of persisted schema, per-handle Arrow-schema cache, physical schema and bounds of every data file, snapshot list; TLC explores all histories of <=3 appends over 12 schema-argument variants, 10 value classes, 8 pre-built-file variants, fresh/reused handles, checking RejectedUnchanged, ScanNeverBreaks, BoundsMeanTheirColumn, AcceptedExact (pre-repair variants must fail). The exported histories are replayed on real tables with concrete schemas and boundary values; after every step outcome, full scan vs accepted rows (independent cast oracle), filtered scans on every column, and unchanged state on rejection are checked.",
+    "DESIGN.md 6/C11; notes/C11.md",
+    "Trusted: TLC, pyarrow as execution platform, the stdlib cast oracle (notes/C11.md). Numeric fidelity is judged by the replay's oracle; the model contributes the acceptance state machine and case enumeration.",
+    "TLA+ acceptance state machine model-checked by TLC; TLC-exported histories replayed on the real library with value-class concretisation")
+CHECKS["C14"] = _e("model_checking",
+    "ReadPath.tla: file graph pointer -> metadata -> manifest list -> manifests -> data files with damage classes (absent, unparseable prefix, non-parsing bytes, other-kind file, JSON object, sibling swap, transient failure of the k-th read, altered-but-parsing data) and step-by-step read programs of every API/option; TLC checks that the outcome is Raise or the full answer (only when the damaged file is outside what the read needs) on every (file x class x API x verify x pruning) case incl. double damage, and exports the cases. Each is applied to a real table with many concrete realisations (truncation at every structural boundary, byte flips per region, swaps, transient faults per call) and every read API; parseability is judged by the independent reader.",
+    "DESIGN.md 6/C14; notes/C14.md",
+    "Open known finding: current metadata file absent with the pointer intact is served from the previous version (collides with C10's recovery rule). Truncations that leave a parseable prefix are observations, not violations.",
+    "TLA+ read-path spec model-checked by TLC; TLC-exported damage cases replayed with byte-level realisations against every read API")
+CHECKS["C15"] = _e("model_checking",
+    "Metadata.tla (line-by-line transcriptions of repointing, expiry, retention, snapshot creation/deletion, metadata log, manifest rewrite) with the reference predicate WellFormed over a ghost commit history; MC_Repoint enumerates ALL parent functions (cycles, dangling links) of <=4/5 snapshots x all kept subsets; History.tla explores all histories up to length 6 over appends, multi-op transactions, deletes, expiries, snapshot deletions, retention and metadata-log bounds. TLC-exported tables/histories are replayed: repointing differentially on the whole enumeration, histories on the real library with metadata JSON and manifest entries projected after every step and required to equal the specification's.",
+    "DESIGN.md 6/C15; notes/C15.md",
+    "Trusted: TLC, virtual clock, independent reader. Table properties are set through a metadata-only commit (no public API).",
+    "TLA+ metadata operators + history spec model-checked by TLC; exhaustive forest enumeration and history replay with per-step projection")
+CHECKS["C16"] = _e("model_checking",
+    "FSDurable.tla: volatile and durable directory views, per-inode content/flushed state, syscall-level actions, Crash and PowerLoss (unflushed content and unsynced renames vanish independently); MC_FSDurable proves PointerNeverOutruns / AtomicPublish for the publish protocol of all 7 operation types (one-step deviations - missing fsync, missing directory fsync, pointer before metadata, write in place - must fail). Binding: the REAL syscall trace (strace, nothing patched) of create, appends, multi-file transaction, delete, expire, delete-snapshot, collect and a forced OCC retry is validated by TLC against Trace_FS with a silent PowerLoss branch after every event and the reachable set of each new version (independent reader) attached to the pointer rename.",
+    "DESIGN.md 6/C16; notes/C16.md",
+    "Trusted: TLC, strace, the POSIX-conservative power-loss model, the independent reader. Directory fsync is assumed supported (it is on this sandbox). Ancestor-directory durability during create is reported separately.",
+    "TLA+ durable-filesystem spec model-checked by TLC; trace validation of real strace syscall traces with power loss injected after every event")
+CHECKS["C17"] = _e("model_checking",
+    "PathRes.tla: kernel path walk over a graph of directories, files and symlinks (inside/outside/dangling/chains, root reached directly or via symlinks, sibling sharing the root's name as prefix), transcriptions of realpath, _resolve_path, _get_arrow_path, the listing walk, GC's guard and the root-write guard; TLC checks Confined / EscapeRejected / NotMisresolved over the path grammar up to depth 4 x layouts x entry points and exports the cases (code variants such as abspath or startswith containment must fail). Each case is built in a real scratch directory with sentinel trees outside the root and run through the real entry points with every touched path recorded; end-to-end runs tamper manifest entries, manifest paths, snapshot list paths, marker payloads and listings.",
+    "DESIGN.md 6/C17; notes/C17.md",
+    "Trusted: TLC, the recording wrappers on open/os.* in the harness process, the fingerprint of everything outside the root. Local backend (S3 keys cannot escape a prefix by construction; C20).",
+    "TLA+ path-resolution spec model-checked by TLC; TLC-exported cases replayed on real directory layouts with access recording")
+CHECKS["C20"] = _e("model_checking",
+    "Storage.tla (reference key-value contract + transcriptions of both backends' key mapping, exists and listing rules), RangeReader.tla (seek/read/readinto/readall machine, issued ranges within [0,size)), Retry.tla (attempt counter x error class). TLC checks BackendsAgree over all operation sequences up to depth 4/5 on a key space with sibling-prefix keys, all seek/read programs, all fault sequences per request (the raw-prefix listing, off-by-one ranges, retried permanent errors must fail), and exports states/programs; every exported state is replayed on LocalStorageBackend and on S3StorageBackend over an in-memory S3 and compared per query; range programs run against S3RangeFile and a local file with the Range log checked; enumerated fault sequences are injected per request and the observed endings judged by TLC.",
+    "DESIGN.md 6/C20; notes/C20.md",
+    "Trusted: TLC, the in-memory S3's fidelity (strong consistency, MD5 ETags, conditional PUT semantics). exists() on a bare directory name is outside the compared contract.",
+    "TLA+ storage/range/retry specs model-checked by TLC; TLC-exported sequences replayed against both real backends (in-memory S3)")
+
 NOT_YET: dict = {}
 
 
